@@ -24,10 +24,52 @@ func hasNilGuard(g *GC, addr string) bool {
 	return false
 }
 
+// postNilField: every path of the pure function fn that returns a non-nil node returns one whose field f the path knows
+// to be nil (maximumNode leaves its loop when node.Right == nil: its result has no right child).
+func postNilField(c *Ctx, fn *ssa.Function, f string) bool {
+	gc := c.GC(fn)
+	if gc.Undecided != "" {
+		return false
+	}
+	n := 0
+	for _, g := range gc.GCs {
+		if g.Exit.Op != "return" || len(g.Exit.Args) != 1 {
+			continue
+		}
+		res := g.Exit.Args[0]
+		if res.String() == "#:nil" {
+			continue
+		}
+		n++
+		if !hasNilGuard(g, "(fa:"+f+" "+noEpoch(res)+")") {
+			return false
+		}
+	}
+	return n > 0
+}
+
+// knownNilChild: the path knows N.<f> == nil — by a guard, or because N is the result of a function whose result never
+// has that child.
+func knownNilChild(c *Ctx, byKey map[string]*ssa.Function, g *GC, N *Term, f string) bool {
+	if hasNilGuard(g, "(fa:"+f+" "+noEpoch(N)+")") {
+		return true
+	}
+	if N.Op == "call" {
+		if fn := byKey[N.Leaf]; fn != nil && postNilField(c, fn, f) {
+			return true
+		}
+	}
+	return false
+}
+
 func ruleR28(c *Ctx) *RuleResult {
 	p := c.p
 	r := &RuleResult{Rule: "R28", Title: "UNLINK: a removed tree node is replaced by its only child; a node with two children hands over key and value of its in-order neighbour", Floor: 3}
 	clause := "a node is replaced by one of its children only on a path that knows the other child to be nil; a node with two children takes both key and value from the same in-order neighbour (max of the left / min of the right subtree) and that neighbour is the one unlinked"
+	byKey := map[string]*ssa.Function{}
+	for _, f := range p.Funcs {
+		byKey[p.FuncKey(f)] = f
+	}
 	// ---- red-black tree
 	if ct := typeByKey(p, "trees/redblacktree.Tree"); ct != nil {
 		fn := methodsOf(p, ct)["Remove"]
@@ -49,21 +91,36 @@ func ruleR28(c *Ctx) *RuleResult {
 				if N == nil {
 					continue
 				}
+				// a path that assumes a child which the result of maximumNode/minimumNode never has is infeasible
+				infeasible := false
+				for _, a := range g.Guards {
+					if a.Op == "!=" && len(a.Args) == 2 && a.Args[0].String() == "#:nil" && a.Args[1].Op == "load" && a.Args[1].Args[0].Op == "fa" {
+						obj := a.Args[1].Args[0].Args[0]
+						if obj.Op == "call" {
+							if fn := byKey[obj.Leaf]; fn != nil && postNilField(c, fn, a.Args[1].Args[0].Leaf) {
+								infeasible = true
+							}
+						}
+					}
+				}
+				if infeasible {
+					continue
+				}
 				nrep++
 				n := noEpoch(N)
 				cs := noEpoch(C)
 				left, right := "(fa:Left "+n+")", "(fa:Right "+n+")"
 				switch {
 				case cs == "(load "+left+")":
-					if !hasNilGuard(g, right) {
+					if !knownNilChild(c, byKey, g, N, "Right") {
 						bad = append(bad, "a node is replaced by its left child on a path that does not know its right child to be nil (the right subtree is lost): "+trunc(guardsString(g), 240))
 					}
 				case cs == "(load "+right+")":
-					if !hasNilGuard(g, left) {
+					if !knownNilChild(c, byKey, g, N, "Left") {
 						bad = append(bad, "a node is replaced by its right child on a path that does not know its left child to be nil (the left subtree is lost): "+trunc(guardsString(g), 240))
 					}
 				case cs == "#:nil":
-					if !hasNilGuard(g, left) || !hasNilGuard(g, right) {
+					if !knownNilChild(c, byKey, g, N, "Left") || !knownNilChild(c, byKey, g, N, "Right") {
 						bad = append(bad, "a node is replaced by nil on a path that does not know both children to be nil")
 					}
 				default:
